@@ -135,13 +135,19 @@ func ParseDeviceCodeRequest(r *http.Request, o OpenIDProvider) (*oidc.DeviceAuth
 	r = r.WithContext(ctx)
 	defer span.End()
 
-	clientID, _, err := ClientIDFromRequest(r, o)
+	clientID, authenticated, err := ClientIDFromRequest(r, o)
 	if err != nil {
 		return nil, err
 	}
 	client, err := o.Storage().GetClientByClientID(r.Context(), clientID)
 	if err != nil {
 		return nil, err
+	}
+	// ClientIDFromRequest does not look at a secret in the form: a wrong one must not pass unnoticed
+	if secret := r.Form.Get("client_secret"); !authenticated && secret != "" && client.AuthMethod() != oidc.AuthMethodNone {
+		if err = AuthorizeClientIDSecret(r.Context(), clientID, secret, o.Storage()); err != nil {
+			return nil, err
+		}
 	}
 	if !ValidateGrantType(client, oidc.GrantTypeDeviceCode) {
 		return nil, oidc.ErrUnauthorizedClient().WithDescription("client missing grant type " + string(oidc.GrantTypeCode))
